@@ -57,6 +57,12 @@ mod ip_vote;
 mod query_info;
 mod test;
 
+#[cfg(feature = "verif-hooks")]
+pub(crate) mod verif_reexports {
+    pub(crate) use super::ip_vote::IpVote;
+    pub(crate) use super::query_info::verif_findnode_log2distance as findnode_log2distance;
+}
+
 /// The number of distances (buckets) we simultaneously request from each peer.
 /// NOTE: This must not be larger than 127.
 pub(crate) const DISTANCES_TO_REQUEST_PER_PEER: usize = 3;
